@@ -4,6 +4,7 @@ import (
 	"go/token"
 	"go/types"
 	"strconv"
+	"strings"
 
 	"golang.org/x/tools/go/ssa"
 )
@@ -283,10 +284,12 @@ func (st *fstate) call(ci ssa.CallInstruction) {
 			if fn == nil || !st.a.inScope[fn] {
 				continue
 			}
-			if o := OnceLiteral(ci, fn); o != "" {
-				// a literal without free variables run by Do of a package-level sync.Once: initialisation that
-				// happens at most once per process and cannot depend on any caller's arguments. It is kept out of the
-				// summaries (like package initialisers) and recorded for the global-inventory rule.
+			if o := OnceLiteral(ci, fn); o != "" && !st.a.readsMutableGlobal(fn) {
+				// a literal without free variables run by Do of a package-level sync.Once, reading no package-level
+				// variable that anything writes after initialisation: it computes the same thing whenever it runs, at
+				// most once per process, independent of any caller's arguments. It is kept out of the summaries (like
+				// package initialisers) and recorded for the global-inventory rule. (A table built once from a registry
+				// that can still change is NOT that: it goes stale, and its writes count.)
 				if st.a.OnceInit == nil {
 					st.a.OnceInit = map[*ssa.Function]string{}
 				}
@@ -468,4 +471,26 @@ func OnceLiteral(ci ssa.CallInstruction, fn *ssa.Function) string {
 		return ""
 	}
 	return GlobalKey(g)
+}
+
+// readsMutableGlobal: fn (or a callee) reads a package-level variable that some function other than a package
+// initialiser or a recorded once-literal writes. Judged on the facts of the previous round of the fixpoint.
+func (a *Analysis) readsMutableGlobal(fn *ssa.Function) bool {
+	s := a.Sums[fn]
+	if s == nil {
+		return true
+	}
+	for g := range s.GlobalsRead {
+		for f, fa := range a.Facts {
+			if fa == nil || f == fn || a.OnceInit[f] != "" || (f.Name() == "init" && f.Parent() == nil) {
+				continue
+			}
+			for _, ac := range fa.Accesses {
+				if ac.Write && ac.Global == g && !strings.HasPrefix(ac.Desc, "ext:(*sync.") {
+					return true
+				}
+			}
+		}
+	}
+	return false
 }
